@@ -301,6 +301,13 @@ func rawFrame(tube byte, meta byte, dl int, ack, no uint32, data []byte) []byte 
 	return append(b, data...)
 }
 
+// reqFrame is a tube request exactly as a peer sends it: the 10-byte initiate frame
+// {tube, flags|REQ, dataLength 0, tube type, 0, frameNo 0}. (The receiver first parses it with
+// the 12-byte frame layout, where the tube type is the top byte of the ack field.)
+func reqFrame(tube, meta, tubeType byte) []byte {
+	return []byte{tube, meta | fREQ, 0, 0, tubeType, 0, 0, 0, 0, 0}
+}
+
 const (
 	fREQ  = 1
 	fRESP = 2
@@ -359,14 +366,14 @@ func muxSequence(r *hv.Rand, class string) [][]byte {
 		// open a reliable tube, then acknowledge frames it never sent
 		for t := 0; t < 6; t++ {
 			id := pickTube(r, fREL)
-			fs = append(fs, rawFrame(id, fREQ|fREL, 0, 0, 0, []byte{7, 0}))
+			fs = append(fs, reqFrame(id, fREL|fACK, 7))
 			for i := 0; i < 6; i++ {
 				fs = append(fs, rawFrame(id, fREL|fACK|byte(hv.Pick(r, []int{0, fFIN, fRTR})), 0, hv.Pick(r, []uint32{2, 3, 5, 100, 1 << 31, 1<<32 - 1}), hv.Pick(r, u32s), nil))
 			}
 		}
 	case "dup-acks":
 		id := pickTube(r, fREL)
-		fs = append(fs, rawFrame(id, fREQ|fREL, 0, 0, 0, []byte{7, 0}))
+		fs = append(fs, reqFrame(id, fREL|fACK, 7))
 		for i := 0; i < 130; i++ {
 			fs = append(fs, rawFrame(id, fREL|fACK, 0, 1, 1, nil))
 		}
@@ -377,40 +384,35 @@ func muxSequence(r *hv.Rand, class string) [][]byte {
 				rel = fREL
 			}
 			id := pickTube(r, rel)
-			fs = append(fs, rawFrame(id, fREQ|rel, 0, 0, 0, []byte{byte(r.Intn(8)), 0}))
+			fs = append(fs, reqFrame(id, rel, byte(r.Intn(8))))
 			for i := 0; i < 8; i++ {
 				d := r.Bytes(hv.Pick(r, []int{0, 1, 50, 1400}))
 				meta := rel | byte(hv.Pick(r, []int{0, fACK, fFIN, fFIN | fACK, fRTR, fRTR | fACK, fRESP, fREQ}))
 				fs = append(fs, rawFrame(id, meta, len(d), hv.Pick(r, []uint32{0, 1, 2}), hv.Pick(r, []uint32{0, 1, 2, 3, 4, 1000, 1<<32 - 1}), d))
 			}
 		}
-	case "backpressure-unreliable":
-		// an unreliable tube the application holds without reading, flooded up to / past its
-		// 1000-slot receive queue, then FIN / more data / duplicate requests on it
+	case "backpressure-unreliable-999", "backpressure-unreliable-1000", "backpressure-unreliable-1200":
+		// An unreliable tube that the application accepts and then never reads (type 201), flooded
+		// with N datagrams - its receive queue has 1000 slots - and only then, in the same FIFO the
+		// receiver consumes, FIN / further data / a duplicate request on it. N = 999 is the negative
+		// control (the FIN still fits), 1000 and 1200 put the FIN on a full queue.
+		flood := map[string]int{"backpressure-unreliable-999": 999, "backpressure-unreliable-1000": 1000, "backpressure-unreliable-1200": 1200}[class]
 		id := pickTube(r, 0)
-		fs = append(fs, rawFrame(id, fREQ, 0, 0, 0, []byte{xw.HoldTubeType, 0}))
-		flood := hv.Pick(r, []int{999, 1000, 1001, 1200})
+		fs = append(fs, reqFrame(id, 0, xw.HoldTubeType))
 		for i := 0; i < flood; i++ {
 			fs = append(fs, rawFrame(id, 0, 3, 0, uint32(i+1), []byte{byte(i), byte(i >> 8), 7}))
 		}
-		for i := 0; i < 6; i++ {
-			switch r.Intn(4) {
-			case 0:
-				fs = append(fs, rawFrame(id, fFIN, 0, 0, uint32(flood+i+1), nil))
-			case 1:
-				fs = append(fs, rawFrame(id, fFIN, 2, 0, uint32(flood+i+1), []byte{1, 2}))
-			case 2:
-				fs = append(fs, rawFrame(id, 0, 1, 0, uint32(flood+i+1), []byte{9}))
-			default:
-				fs = append(fs, rawFrame(id, fREQ, 0, 0, 0, []byte{xw.HoldTubeType, 0}))
-			}
-		}
-		fs = append(fs, rawFrame(id, fFIN, 0, 0, uint32(flood+9), nil)) // always at least one FIN on the full queue
+		fs = append(fs,
+			rawFrame(id, fFIN, 0, 0, uint32(flood+1), nil),
+			rawFrame(id, 0, 1, 0, uint32(flood+2), []byte{9}),
+			reqFrame(id, 0, xw.HoldTubeType),
+			rawFrame(id, fFIN, 2, 0, uint32(flood+3), []byte{1, 2}),
+			rawFrame(id, 0, 1, 0, uint32(flood+4), []byte{8}))
 	case "backpressure-reliable":
 		// a reliable tube the application holds without reading: in-order data well past the
 		// receive window, out-of-window frames, retransmission requests, FIN
 		id := pickTube(r, fREL)
-		fs = append(fs, rawFrame(id, fREQ|fREL, 0, 0, 0, []byte{xw.HoldTubeType, 0}))
+		fs = append(fs, reqFrame(id, fREL|fACK, xw.HoldTubeType))
 		flood := hv.Pick(r, []int{200, 1000, 1500})
 		for i := 0; i < flood; i++ {
 			d := xw.PatternD(hv.Pick(r, []int{1, 100, 1400}), byte(i), 1)
@@ -428,7 +430,7 @@ func muxSequence(r *hv.Rand, class string) [][]byte {
 				meta |= fREL
 			}
 			id := byte(2 + i/2)
-			fs = append(fs, rawFrame(id, meta, 0, 0, 0, []byte{byte(3 + r.Intn(5)), 0}))
+			fs = append(fs, reqFrame(id, meta, byte(3+r.Intn(5))))
 		}
 	case "req-flood":
 		// more tube requests than the accept queue holds (128), both kinds
@@ -441,7 +443,7 @@ func muxSequence(r *hv.Rand, class string) [][]byte {
 			if meta&fREL != 0 && id == xw.ProbeID {
 				continue
 			}
-			fs = append(fs, rawFrame(id, meta, 0, 0, 0, []byte{byte(r.Intn(256)), 0}))
+			fs = append(fs, reqFrame(id, meta, byte(r.Intn(256))))
 		}
 	default: // random
 		for i := 0; i < n; i++ {
@@ -544,13 +546,13 @@ func main() {
 
 	// ---- part C
 	classes := []string{"flags-sweep", "length-field", "ack-beyond-sent", "dup-acks", "data-and-fin", "req-flood", "random",
-		"backpressure-unreliable", "backpressure-reliable", "backpressure-accept", "backpressure-unreliable"}
+		"backpressure-unreliable-999", "backpressure-unreliable-1000", "backpressure-unreliable-1200", "backpressure-reliable", "backpressure-accept"}
 	var mjobs []xw.Job
 	var mdesc []struct {
 		class  string
 		frames [][]byte
 	}
-	for k := 0; k < hv.Scale(33, 220); k++ {
+	for k := 0; k < hv.Scale(36, 240); k++ {
 		class := classes[k%len(classes)]
 		fs := muxSequence(r, class)
 		hx := make([]string, len(fs))
@@ -594,11 +596,12 @@ func main() {
 		default:
 			var o xw.MuxResult
 			json.Unmarshal(res.Out, &o)
+			c.Desc += fmt.Sprintf(" | application holds %d tube(s) unread, %d datagrams queued on them, %d tubes accepted", o.Held, o.HeldQueued, o.Accepted)
 			switch {
 			case !o.SetupOK || !o.EchoBefore:
 				c.Spec, c.Sig, c.What = false, "C11:muxer-probe-setup", "the probe tube did not work before anything was injected: "+o.Note
 			case !o.EchoAfter:
-				c.Spec, c.Sig, c.What = false, "C11:muxer-stops-serving-other-tube", "after the injected frames the unrelated reliable tube no longer echoes"
+				c.Spec, c.Sig, c.What = false, "C11:muxer-stops-serving-other-tube", fmt.Sprintf("after the injected frames the unrelated reliable tube no longer echoes (tubes held unread by the application: %d, datagrams queued on them: %d)", o.Held, o.HeldQueued)
 			case !o.StopReturned:
 				c.Spec, c.Sig, c.What = false, "C11:muxer-stop-does-not-return", fmt.Sprintf("Muxer.Stop had not returned after %d ms", o.StopMs)
 			}
